@@ -229,6 +229,12 @@ func main() {
 		}
 	}
 	vsched.PoolRetain = 0
+	// a deserializer that keeps the byte slice it is given (zero-copy decoding): the bytes of an earlier
+	// response stay what they were when later requests go through the same SimpleAPI
+	for _, ct := range ctors() {
+		inputs++
+		retainCase(ct, base)
+	}
 	r.Cov["states"] = inputs
 	r.Cov["transitions"] = evals
 	r.Cov["traces_validated_against_impl"] = evals
@@ -239,6 +245,43 @@ func main() {
 	r.Assume = []string{"stub http.RoundTripper instead of sockets (its response body honours the request context, like a real transport's)",
 		"placeholder values contain no braces, so substitution is independent of the PathParam iteration order: a correct implementation gives one URL for every order, and the map-order seam planned in DESIGN §2.1 is not needed for the oracle (it was not built)"}
 	r.Finish()
+}
+
+func retainCase(ct ctor, base string) {
+	st := &stub{respBody: `{"A":1}`}
+	api := network.NewSimpleAPIWithSimpleHTTP(base, network.NewSimpleHTTPWithClientAndInterceptors(&http.Client{Transport: st}))
+	var kept [][]byte
+	api.ResponseDeserializer = func(body []byte, target interface{}) (interface{}, error) {
+		kept = append(kept, body)
+		return network.JSONBodyDeserializer(body, target)
+	}
+	call := ct.mk(api, "x")
+	bodies := []string{`{"A":1}`, `{"A":22222222}`, `{"A":3}`}
+	var body interface{} = payload{A: 1, B: "b"}
+	if ct.kind == "multipart" {
+		body = &network.MultipartForm{Value: map[string][]string{"k": {"v"}}}
+	}
+	p := lib.Catch(func() {
+		for _, b := range bodies {
+			st.respBody = b
+			var t reply
+			call(nil, body, &t).Eval()
+			evals++
+		}
+	})
+	if p != "" {
+		bad("panic", "%s with a deserializer that keeps its input: %s", ct.name, p)
+		return
+	}
+	if len(kept) != len(bodies) {
+		bad("deserializer-calls", "%s: the deserializer was called %d times for %d evaluations", ct.name, len(kept), len(bodies))
+		return
+	}
+	for i, b := range bodies {
+		if string(kept[i]) != b {
+			bad("response-bytes-overwritten", "%s: the bytes handed to the deserializer for response %d read %q after later requests through the same SimpleAPI, they were %q", ct.name, i+1, kept[i], b)
+		}
+	}
 }
 
 func nestedCase(ct ctor, base string, pool int) {
